@@ -855,7 +855,7 @@ def write_cache_entry(
             entry.mode,
             entry.uid,
             entry.gid,
-            entry.size,
+            entry.size & 0xFFFFFFFF,
             hex_to_sha(entry.sha),
             flags,
         )
